@@ -194,6 +194,8 @@ def contracts(tier):
 
 
 def extra_checks(rep, tier):
+    from contracts import grid_dirnode
+    grid_dirnode.grid_check(rep, tier, "C21")
     graphs = list(all_graphs())
     rng = random.Random(rep.seed * 5 + 2)
     for _ in range(500 if tier == "quick" else 20000):
